@@ -63,3 +63,13 @@ PART["C12"] = {
     "assumptions": ["a Put that has not returned for 8 s with its goroutine parked on a channel send / mutex is blocked (typical Put latency is < 1 ms)"],
     "race_anchors": ["callbackStore", "partialCache"],
 }
+PART["C10"] = {
+    "runs": [{"name": "syncnet", "pkg": P, "run": "^TestVF_C10", "timeout": "30m", "timeout_thorough": "120m"}],
+    "rule": "peer sets of 2-4 scripted sync servers over a harness-signed valid chain, behaviours {honest, honest-slow-start, refuses, closes-after-k, silent, stalls-after-k, bad-signature, wrong-round-label, "
+            "foreign-beacon-id, valid-skipping, valid-from-beyond}, peer order shuffled by the real code; node under test: (participant) a real Handler restarted in catch-up mode with store height 0/mid/head-1, "
+            "driven by clock steps through SyncManager.Run; (follow) a SyncManager stacked exactly like core.StartFollowChain (raw store + scheme store + callback store, no append store) with repeated Sync attempts; "
+            "(repair) CheckPastBeacons/CorrectPastBeacons on a store with deleted/corrupted rounds. Oracle at the base-store tap: every written beacon verifies under the harness key, equals the valid chain, and is "
+            "written at head+1 (repair: only reported rounds); convergence within a step/attempt bound when an honest peer exists; check result == damaged rounds (+ their successors on the trimmed chained store); "
+            "after repair all rounds equal the valid chain. distinct = distinct (mode, scheme, back-end, peer behaviours, heights)",
+    "assumptions": ["the harness owns the group secret, so it can make the valid chain peers serve; lying peers only alter or reorder valid beacons"],
+}
